@@ -24,7 +24,8 @@ KINDS = {
     37: 'model and code disagree on the contract effect of call data after the step',
     38: 'observation shape differs',
     11: 'a rejected operation changed an observable',
-    12: 'a packet was received twice / acknowledged twice / acknowledged before it was received',
+    12: 'a packet was received twice / acknowledged twice / acknowledged before it was received, or a forged / altered / '
+        'misrouted relay message was accepted',
     13: 'an error acknowledgement was written but the callback left effects on the destination',
     14: 'success acknowledgement: the source chain changed beyond ack status and relayer fee (refund of a delivered packet?)',
     15: 'error acknowledgement: the sender did not get back exactly what he had sent',
@@ -36,6 +37,7 @@ KINDS = {
     21: 'getAckStatus disagrees with the outcome of the packet',
     22: 'a packet was sent with a sequence other than the next one',
     24: 'an error acknowledgement was written but the callback sent a packet on',
+    25: 'an accepted acknowledgement did not move the relayer fee of the packet from the packet contract to the relayer',
 }
 for _k in (16, 17, 18, 19, 21):
     KINDS[100 + _k] = 'initial state of the history: ' + KINDS[_k]
@@ -78,6 +80,8 @@ def op_term(o):
         return '(Ack %s %s %s)' % (nat(o['src']), nat(o['dst']), N(o['seq']))
     if k == 'F':
         return '(AddFee %s %s %s %s %s)' % (nat(o['c']), nat(o['u']), nat(o['dst']), N(o['seq']), N(o['amt']))
+    if k == 'X':
+        return '(Fault %s %s %s %s)' % (nat(o['fk']), nat(o['src']), nat(o['dst']), N(o['seq']))
     raise ValueError(k)
 
 
@@ -114,6 +118,7 @@ def hist_term(r):
 
 
 SHARD = 4
+NCORPUS = 6   # harness/cmd/c03/gen.go: histories 0..5 are the directed corpus
 
 
 def evaluate(workdir, results, tag='cases'):
@@ -223,27 +228,43 @@ def signature(res, step):
     return '%s/cd%s/code%s' % (st['op']['k'], st['op'].get('cd', 0), st['code'])
 
 
+FAULTS = {0: 'recv_altered_packet', 1: 'ack_forged_code', 2: 'recv_misrouted', 3: 'ack_misrouted', 4: 'ack_altered_packet'}
+CDNAMES = {0: 'none', 1: 'ok', 2: 'revert', 3: 'hookfail', 4: 'onward_unknown', 5: 'agent_multihop'}
+
+
 def coverage(run, results, mm, ff):
     dist = Counter()
     nontrivial = set()
     steps = 0
     for r in results:
         dist['histories_%d_chains' % r['spec']['nchains']] += 1
+        if r['spec']['id'] < NCORPUS:
+            dist['histories_directed_corpus'] += 1
         dist['bindings'] += len(r['spec'].get('binds') or [])
         dist['bindings_scaled'] += sum(1 for b in (r['spec'].get('binds') or []) if b.get('scale'))
+        bound = {(b['c'], b['loc'], b['src']): b for b in (r['spec'].get('binds') or [])}
         sent = {}
+        state = {}
         for st in r['steps']:
             steps += 1
             o = st['op']
             k = o['k']
             acc = 'accepted' if st['class'] == 0 else 'rejected'
-            dist['%s_%s' % ({'T': 'transfer', 'R': 'recv', 'A': 'ack', 'F': 'addfee'}[k], acc)] += 1
+            dist['%s_%s' % ({'T': 'transfer', 'R': 'recv', 'A': 'ack', 'F': 'addfee', 'X': 'fault'}[k], acc)] += 1
+            if k == 'X':
+                dist['fault_%s_%s' % (FAULTS.get(o['fk'], o['fk']), acc)] += 1
             if k == 'T' and st['class'] == 0:
-                sent[(o['c'], o['dst'], st['op']['seq'])] = o
-                dist['transfer_cd_%s' % {0: 'none', 1: 'ok', 2: 'revert', 3: 'hookfail', 4: 'onward_unknown', 5: 'agent_multihop'}[o['cd']]] += 1
+                ret = (o['c'], o['tok'], o['dst']) in bound and int(o['amt']) > 0
+                sent[(o['c'], o['dst'], st['op']['seq'])] = dict(o, path='return' if ret else 'forward',
+                                                                 scaled=bool(ret and bound[(o['c'], o['tok'], o['dst'])].get('scale')))
+                state[(o['c'], o['dst'], st['op']['seq'])] = 'sent'
+                dist['transfer_cd_%s' % CDNAMES[o['cd']]] += 1
                 dist['transfer_%s' % ('native' if o['tok'] == 0 else 'erc20')] += 1
+                dist['transfer_%s_path' % ('return' if ret else 'forward')] += 1
                 if int(o['fee']) > 0:
                     dist['transfer_with_fee'] += 1
+                    if o['ftok'] != o['tok']:
+                        dist['transfer_fee_in_other_token'] += 1
                 if int(o['amt']) == 0:
                     dist['transfer_pure_call'] += 1
                 if o['rcv'] < 0:
@@ -255,14 +276,39 @@ def coverage(run, results, mm, ff):
             if k == 'R' and st['class'] == 0:
                 dist['recv_code_%d' % st['code']] += 1
                 if st.get('onward'):
+                    w = st['onward']
                     dist['recv_sending_a_packet_on'] += 1
-                    sent[(st['onward']['src'], st['onward']['dst'], st['onward']['seq'])] = dict(tok=st['onward']['tok'], amt=st['onward']['amt'], cd=0, rcv=st['onward']['rcv'], fee='agent')
-                    dist['onward_%s' % ('return_path' if st['onward']['ori'] >= 0 else 'forward_path')] += 1
-            if k in 'RA' and st['class'] == 0:
-                t = sent.get((o['src'], o['dst'], o['seq']))
-                nontrivial.add(json.dumps([k, st['code'], t and [t['tok'], t['amt'], t['cd'], t['rcv'], t['fee']], o['src'], o['dst']]))
+                    sent[(w['src'], w['dst'], w['seq'])] = dict(tok=w['tok'], amt=w['amt'], cd=0, rcv=w['rcv'], fee='agent',
+                                                                path='return' if w['ori'] >= 0 else 'forward', scaled=False)
+                    state[(w['src'], w['dst'], w['seq'])] = 'sent'
+                    dist['onward_%s' % ('return_path' if w['ori'] >= 0 else 'forward_path')] += 1
+            key = (o.get('src'), o.get('dst'), o.get('seq'))
+            if k in 'RA':
+                t = sent.get(key)
+                if st['class'] == 0:
+                    if k == 'R':
+                        state[key] = 'recv_ok' if st['code'] == 0 else 'recv_err'
+                        if t:
+                            dist['recv_%s_%s_path%s' % ('delivered' if st['code'] == 0 else 'refused', t['path'],
+                                                         '_scaled' if t.get('scaled') else '')] += 1
+                            dist['recv_cd_%s_code_%d' % (CDNAMES.get(t['cd'], t['cd']), st['code'])] += 1
+                    else:
+                        if t:
+                            dist['ack_%s_%s_path' % ('success' if state.get(key) == 'recv_ok' else 'refund', t['path'])] += 1
+                            if t.get('fee') == 'agent':
+                                dist['ack_of_onward_packet_%s' % ('success' if state.get(key) == 'recv_ok' else 'refund_passed_on')] += 1
+                        state[key] = 'acked'
+                    nontrivial.add(json.dumps([k, st['code'], t and [t['tok'], t['amt'], t['cd'], t['rcv'], t['fee']], o['src'], o['dst']]))
+                else:
+                    was = state.get(key, 'unknown')
+                    if k == 'R':
+                        dist['recv_rejected_%s' % ('duplicate' if was != 'sent' else 'other')] += 1
+                    else:
+                        dist['ack_rejected_%s' % {'sent': 'premature', 'acked': 'duplicate'}.get(was, 'unprocessable_' + was)] += 1
             if k == 'T' and st['class'] == 0:
                 nontrivial.add(json.dumps(['T', o['c'], o['dst'], o['tok'], o['amt'], o['cd'], o['rcv'], o['fee'], o['ftok']]))
+            if k == 'X':
+                nontrivial.add(json.dumps(['X', o['fk'], o['src'], o['dst'], state.get(key, 'unknown')]))
         # in-flight depth
         infl = 0
         mx = 0
@@ -275,14 +321,21 @@ def coverage(run, results, mm, ff):
         dist['max_packets_in_flight_%s' % ('1' if mx <= 1 else '2-3' if mx <= 3 else '4+')] += 1
     nobs = sum(sum(len(o['bal']) + len(o['supply']) + len(o['out']) + len(o['bind']) + len(o['next']) + 3 * len(o['pk']) + len(o['eff'])
                    for o in st['obs']) for r in results for st in r['steps'])
+
+    def sample(r, nops):
+        return dict(spec={k: v for k, v in r['spec'].items() if k != 'ops'}, first_ops=r['spec']['ops'][:nops],
+                    first_steps=[dict(op=st['op'], accepted=st['class'] == 0, ack_code=st['code']) for st in r['steps'][:nops]])
+
     run.coverage.update(dict(
         evaluations=steps, histories=len(results), observables_compared=nobs, distinct_nontrivial=len(nontrivial),
         rule='one evaluation = one operation (user crossChainCall / addPacketFee transaction, relayed MsgRecvPacket, relayed '
-             'MsgAcknowledgement) executed on 2-3 real chains with ALL observables of all chains read afterwards and compared with '
-             'the model inside Coq; non-trivial = accepted; distinct = distinct (kind, chains, token, amount, call-data kind, '
-             'receiver kind, fee, ack code)',
-        distribution=dict(dist), model_mismatches=len(mm), monitor_failures=len(ff),
-        samples=[dict(spec={k: v for k, v in results[-1]['spec'].items() if k != 'ops'}, first_ops=results[-1]['spec']['ops'][:6])] if results else []))
+             'MsgAcknowledgement, or a forged / altered / misrouted relay message) executed on 2-3 real chains with ALL observables '
+             'of all chains read afterwards and compared with the model inside Coq; the first %d histories are the directed corpus '
+             '(same on every run), the others are generated from the seed; non-trivial = accepted transfer / receive / '
+             'acknowledgement, or a faulty relay message; distinct = distinct (kind, chains, token, amount, call-data kind, '
+             'receiver kind, fee, ack code) resp. (fault kind, chains, state of the packet)' % NCORPUS,
+        distribution=dict(sorted(dist.items())), model_mismatches=len(mm), monitor_failures=len(ff),
+        samples=([sample(results[3], 12)] if len(results) > 3 else []) + ([sample(results[-1], 8)] if results else [])))
 
 
 def check(run):
